@@ -63,11 +63,14 @@ def _read(path: str) -> bytes:
 
 
 @functools.lru_cache(maxsize=None)
-def header_digest() -> str:
+def header_digest(native: bool = False) -> str:
     """Digest of every header / .inc that a TU could include."""
     files = []
-    for root in (os.path.join(REPO, "include"), os.path.join(REPO, "src"),
-                 os.path.join(REPO, "plugin"), SHIMS, NATIVE):
+    roots = (os.path.join(REPO, "include"), os.path.join(REPO, "src"),
+             os.path.join(REPO, "plugin"), SHIMS)
+    if native:
+        roots = roots + (NATIVE,)
+    for root in roots:
         for dp, dn, fn in os.walk(root):
             dn[:] = [d for d in dn if d not in ("experimental", "render", "filament")]
             for f in fn:
@@ -100,14 +103,14 @@ def lib_sources() -> list[str]:
 
 def _compile_cmd(src: str, variant_flags: list[str], extra: list[str]) -> list[str]:
     if src.endswith(".c"):
-        return [CC, "-std=c11"] + COMMON + variant_flags + extra + ["-c", src]
+        return [CC, "-std=gnu11"] + COMMON + variant_flags + extra + ["-c", src]
     return [CXX, "-std=c++20"] + COMMON + variant_flags + extra + ["-c", src]
 
 
 def compile_obj(src: str, variant: str, extra: tuple[str, ...] = ()) -> str:
     flags = VARIANTS[variant]
     cmd = _compile_cmd(src, flags, list(extra))
-    key = _sha(" ".join(cmd), _read(src), header_digest())
+    key = _sha(" ".join(cmd), _read(src), header_digest(not src.startswith(REPO + "/")))
     out = os.path.join(CACHE, "obj", variant, key + ".o")
     if os.path.exists(out):
         return out
@@ -115,15 +118,22 @@ def compile_obj(src: str, variant: str, extra: tuple[str, ...] = ()) -> str:
     tmp = out + ".%d.tmp" % os.getpid()
     r = subprocess.run(cmd + ["-o", tmp], capture_output=True, text=True)
     if r.returncode != 0:
-        sys.stderr.write("BUILD ERROR %s\n%s\n" % (" ".join(cmd), r.stderr[-4000:]))
-        raise SystemExit(2)
+        raise BuildError("BUILD ERROR %s\n%s\n" % (" ".join(cmd), r.stderr[-3000:]))
     os.replace(tmp, out)
     return out
 
 
+class BuildError(Exception):
+    pass
+
+
 def compile_many(srcs: list[str], variant: str, extra: tuple[str, ...] = ()) -> list[str]:
-    with cf.ThreadPoolExecutor(max_workers=os.cpu_count() or 4) as ex:
-        return list(ex.map(lambda s: compile_obj(s, variant, extra), srcs))
+    try:
+        with cf.ThreadPoolExecutor(max_workers=os.cpu_count() or 4) as ex:
+            return list(ex.map(lambda s: compile_obj(s, variant, extra), srcs))
+    except BuildError as e:
+        sys.stderr.write(str(e))
+        raise SystemExit(2)
 
 
 def _link_flags(variant: str) -> list[str]:
@@ -136,7 +146,9 @@ def ensure(variant: str = "rel", with_support: bool = True) -> str:
     with _lock:
         srcs = lib_sources()
         if with_support:
-            srcs = srcs + [os.path.join(NATIVE, "support.cc")]
+            from . import gen_wrappers
+            wcc, _ = gen_wrappers.ensure()
+            srcs = srcs + [os.path.join(NATIVE, "support.cc"), wcc]
         objs = compile_many(srcs, variant)
         key = _sha(variant, *objs)
         outdir = os.path.join(CACHE, "lib", variant, key)
@@ -181,6 +193,6 @@ def ensure_exe(name: str, sources: list[str], variant: str = "rel", extra: tuple
         return out
 
 
-if __name__ == "__main__":
+if __name__ == "__main__" and __package__:
     for v in sys.argv[1:] or ["rel"]:
         print(v, ensure(v))
